@@ -28,22 +28,33 @@ def rawMetric (log2 neg : α → α) (metric : Metric) (compiled : Bool) (f : Li
   | .mnn => if compiled then mnnKernel f nObj nRemove false else (mnnFallback f nObj nRemove false, #[])
   | .twonn => if compiled then mnnKernel f nObj nRemove true else (mnnFallback f nObj nRemove true, #[])
 
-/-- `get_crowding_function(label).do(F, n_remove)` -/
-def crowding (log2 neg : α → α) (metric : Metric) (compiled : Bool) (f : List (List α)) (nObj : Nat)
-    (nObjS : α) (nRemove : Int) : List (Ext α) × Array Oob :=
+/-- `FunctionalDiversity._do` / `FuncionalDiversityMNN._do` around a raw metric function:
+short fronts are all-infinite, duplicates (when filtered) get 0 and are hidden from the function -/
+def crowdingWith (filter isMnn : Bool) (raw : List (List α) → List (Ext α) × Array Oob)
+    (f : List (List α)) (nObj : Nat) : List (Ext α) × Array Oob :=
   let n := f.length
-  let isMnn := metric == .mnn || metric == .twonn
   if isMnn && n ≤ nObj then (f.map fun _ => Ext.top, #[])
   else if n ≤ 2 then (f.map fun _ => Ext.top, #[])
   else
-    let filter := metric != .cd
     let uniq := (List.range n).filter fun i => !(filter && isDupRow f i)
     let sub := uniq.map fun i => f.getD i []
-    let (dv, errs) := rawMetric log2 neg metric compiled sub nObj nObjS nRemove
+    let (dv, errs) := raw sub
     ((List.range n).map fun i =>
       match uniq.idxOf? i with
       | some p => dv.getD p (Ext.fin 0)
       | none => Ext.fin 0, errs)
+
+/-- `get_crowding_function(label).do(F, n_remove)` for the five string labels
+(`'pruning-cd'` is an alias of `'pcd'`) -/
+def crowding (log2 neg : α → α) (metric : Metric) (compiled : Bool) (f : List (List α)) (nObj : Nat)
+    (nObjS : α) (nRemove : Int) : List (Ext α) × Array Oob :=
+  crowdingWith (metric != .cd) (metric == .mnn || metric == .twonn)
+    (fun sub => rawMetric log2 neg metric compiled sub nObj nObjS nRemove) f nObj
+
+/-- `get_crowding_function(fun)` for a user callable: wrapped with duplicate filtering -/
+def crowdingCallable (raw : List (List α) → List (Ext α) × Array Oob) (f : List (List α)) (nObj : Nat) :
+    List (Ext α) × Array Oob :=
+  crowdingWith true false raw f nObj
 
 end
 end Pymoode
